@@ -232,6 +232,8 @@ def _validate_types(nodes: dict[str, HyperNode], nx_graph: nx.DiGraph) -> None:
     Only called when strict_types=True.
     """
     for source_name, target_name, edge_data in nx_graph.edges(data=True):
+        if edge_data.get("edge_type") == "ordering":
+            continue  # emit/wait_for: no value reaches a parameter, nothing to type
         value_names = edge_data.get("value_names")
         if not value_names:
             continue
